@@ -56,6 +56,11 @@ fn corpus(r: &mut Rng, cat: &Catalog) -> Vec<String> {
         q.push(format!("SELECT RANDOM() AS r, id FROM {}", t));
     }
     q.push(format!("SELECT id, COUNT(*) AS n FROM {} GROUP BY id", t));
+    if cat.tables.len() >= 2 {
+        // several shared columns: the ON clause of a NATURAL JOIN is a conjunction over all of them
+        q.push(format!("SELECT * FROM {} NATURAL JOIN {}", cat.tables[0].name, cat.tables[1].name));
+        q.push(format!("SELECT id FROM {} AS l NATURAL JOIN {} AS r", cat.tables[1].name, cat.tables[0].name));
+    }
     q.push(format!("SELECT DISTINCT id FROM {} ORDER BY id LIMIT 3", t));
     q
 }
